@@ -115,6 +115,9 @@ pub fn run(ctx: &Ctx) -> Report {
                 case.spec.lines.push(crate::spec::Line::Used { id: 0, srv: "CAL".into(), cr: "GASNATURAL".into(), v: vec![10.0; case.spec.n], comment: String::new() });
             }
         }
+        if r.chance(1, 30) {
+            crate::gen::without_epb_use(&mut case.spec, r);
+        }
         check_case(ctx, &case, t);
     });
     let quotas = vec![
